@@ -295,4 +295,43 @@ def artifact2destination {α : Type} [DecidableEq α] (showInt : Int → α) (st
       | some (some loc) => .dest loc
       | some none => .noEndpoint
 
+/-! ### Histories: issuing through `Entity.use_artifact`, reloading metadata, resolving -/
+
+/-- What the receiving entity holds: the source-id table built from the metadata in force
+    (`self.sourceid`) and the artifacts seen so far. -/
+structure ArtState (α : Type) where
+  store : List (ArtEntity α)
+  seen : List Bytes := []
+
+inductive ArtStep (α : Type) where
+  /-- `issuer.use_artifact(message, endpoint_index)` (the handle is `sha1(message + rndbytes())`), sent
+      with `apply_binding(BINDING_HTTP_ARTIFACT, …)` and resolved by the receiver on arrival. -/
+  | issue (entityId sourceId handle : Bytes) (idx : Int)
+  /-- `receiver.reload_metadata(conf)`: `self.sourceid` is rebuilt from the new metadata. -/
+  | reload (store : List (ArtEntity α))
+  /-- `receiver.artifact2destination` once more for the `i`-th artifact seen. -/
+  | resolve (i : Nat)
+
+inductive ArtObs (α : Type) where
+  | issued (art : Option Bytes) (dest : Option (ArtDest α))
+  | reloaded
+  | resolved (dest : Option (ArtDest α))      -- `none`: no such artifact in the history
+deriving DecidableEq, Repr
+
+/-- One step of a history.  Resolution always uses the table in force at that moment. -/
+def stepArt {α : Type} [DecidableEq α] (showInt : Int → α) (st : ArtState α) : ArtStep α → ArtState α × ArtObs α
+  | .issue eid sid handle idx =>
+    match createArtifact (fun _ => sid) eid handle idx with
+    | none => (st, .issued none none)
+    | some art => ({ st with seen := st.seen ++ [art] }, .issued (some art) (some (artifact2destination showInt st.store art)))
+  | .reload store => ({ st with store := store }, .reloaded)
+  | .resolve i =>
+    match st.seen[i]? with
+    | none => (st, .resolved none)
+    | some art => (st, .resolved (some (artifact2destination showInt st.store art)))
+
+def runArt {α : Type} [DecidableEq α] (showInt : Int → α) (st : ArtState α) : List (ArtStep α) → List (ArtObs α)
+  | [] => []
+  | s :: rest => (stepArt showInt st s).2 :: runArt showInt (stepArt showInt st s).1 rest
+
 end Bindings
